@@ -128,8 +128,8 @@ def profile_metablocks(draw):
 
 
 @st.composite
-def cases(draw, tier="quick"):
-    sel = draw(st.integers(0, 99))
+def cases(draw, tier="quick", force_sel=None):
+    sel = draw(st.integers(0, 99)) if force_sel is None else force_sel
     if sel < 42:
         mode = "dir"
     elif sel < 78:
@@ -179,6 +179,37 @@ def cases(draw, tier="quick"):
                             uid=draw(st.one_of(st.none(), treemodel.ids())), gid=draw(st.one_of(st.none(), treemodel.ids())),
                             types=types)
         case["nodes"] = draw(treemodel.trees(mode="dir", want_hlinks=(types is None), want_xattrs=False, allow_newline=True))
+        # -name / -path / -nonrecursive: patterns are made from names of the tree ('*' for a slice, '?' for a byte and for every
+        # byte that is special to fnmatch), so that some entries match and some do not
+        filt = draw(st.sampled_from([None, None, "name", "name", "path", "nonrec"]))
+        names = [n["path"] for n in case["nodes"]]
+        if filt in ("name", "path") and names and not any(n["type"] == "hlink" for n in case["nodes"]):
+            src = draw(st.sampled_from(names))
+            pre = case["glob"]["prefix"].strip(b"/")
+            if filt == "name":
+                src = src.rsplit(b"/", 1)[-1]
+            elif pre:
+                src = pre + b"/" + src
+            pat = bytearray()
+            i = 0
+            while i < len(src):
+                c = src[i:i + 1]
+                r = draw(st.sampled_from([0, 0, 0, 0, 1, 2]))
+                if c == b"/" and filt == "path":
+                    pat += c
+                    i += 1
+                elif r == 1:
+                    pat += b"*"
+                    i += draw(st.integers(0, 3))    # (in -path patterns a star that swallowed a slash simply matches nothing)
+                elif r == 2 or c in b"\\[]*?" or c[0] < 0x20 or c[0] >= 0x7f:
+                    pat += b"?"
+                    i += 1
+                else:
+                    pat += c
+                    i += 1
+            case["glob"][filt] = bytes(pat) or b"*"
+        elif filt == "nonrec":
+            case["glob"]["nonrec"] = True
         return case
     case["nodes"] = draw(treemodel.trees(mode=mode))
     if mode == "file" or draw(st.integers(0, 3)) == 0:
